@@ -1,438 +1,34 @@
-//! hostdrive (C16, C07, C12): drives the real `collect_sources` / salsa inputs / handlers (and, in
-//! parallel, the real `AnalysisHost`) through histories of `touch` operations
-//! (= lsp `Server::set_file_content`) and dumps the three salsa inputs keyed by path plus the
-//! include-related query results after every step.
-//!
-//! `hostdrive abs`   stdin: JSON array of texts; stdout: JSON array, per text the abstraction used by
-//!                   the Coq model M-host: the Include / Class descendants in document order
-//!                   `{"inc":[lo,hi],"path":null|[value,llo,lhi]}` / `{"decl":name}`
-//!                   (same scan as file_system.rs: list_includes and document_link.rs, public AST only).
-//! `hostdrive run [timeout_ms]`
-//!                   stdin: JSON array of cases
-//!                     {"mode":"memfs"|"vfs", "dir": base directory (vfs mode; created and removed here),
-//!                      "files":[[path,text],..] (the static disk), "include_dir": null|path,
-//!                      "history":[[kind,path,text],..]  kind = "touch" | "raw",
-//!                      "full": true -> every step also carries "queries": the full query set of the
-//!                      public Analysis API of the real AnalysisHost, keyed by path (memfs mode)}
-//!                   stdout: ONE LINE PER CASE, flushed: {"steps":[..]} | {"panic":msg} | {"timeout":true}.
-//!                   After a timeout the process exits (the hung thread cannot be stopped) and the
-//!                   driver restarts it with the remaining cases; a stack overflow aborts the process
-//!                   and is seen by the driver as a missing line.
-//! memfs mode: `vharness::memfs::MemFs` (touch writes the text into the MemFs: disk overlaid by editor
-//! texts) + a `RootDatabase` of our own (so that the inputs can be read through the public
-//! `SourceDatabase` trait) + the same operations on a real `AnalysisHost` whose query results must agree.
-//! vfs mode: the real `lsp::vfs::Vfs` over real files below "dir", with the five statements of
-//! `Server::set_file_content` replicated.
-use ide::analysis::AnalysisHost;
-use ide::db::{RootDatabase, SourceDatabase};
-use ide::file_system::{self, FileId, FilePath, FileSystem};
-use ide::handlers::{diagnostics, document_link, document_symbol};
-use lsp::vfs::Vfs;
-use serde_json::{json, Value};
-use std::io::Write;
-use std::panic::AssertUnwindSafe;
-use std::path::{Path, PathBuf};
-use std::sync::Arc;
-use syntax::ast::{self, AstNode};
+//! hostdrive (C16, C07, C12): memfs mode of hostcommon/mod.rs (protocol documented there): the real
+//! `collect_sources` / salsa inputs / handlers / `AnalysisHost` over the in-memory `vharness::memfs::MemFs`.
+//! Depends on the `ide` crate only.  The vfs mode (real `lsp::vfs::Vfs`) is the bin `vfsdrive`.
+#[path = "hostcommon/mod.rs"]
+mod hostcommon;
+
+use ide::file_system::{FileId, FilePath, FileSystem};
 use vharness::memfs::MemFs;
 
-fn abs_of(text: &str) -> Value {
-    let root = syntax::parse(text).syntax_node();
-    let mut items = Vec::new();
-    for node in root.descendants() {
-        if let Some(inc) = ast::Include::cast(node.clone()) {
-            let r = inc.syntax().text_range();
-            let p = inc.path().map(|s| {
-                let lr = ide::utils::range_excluding_trivia(s.syntax());
-                json!([s.value().to_string(), u32::from(lr.start()), u32::from(lr.end())])
-            });
-            items.push(json!({"inc": [u32::from(r.start()), u32::from(r.end())], "path": p}));
-        } else if let Some(c) = ast::Class::cast(node.clone()) {
-            if let Some(n) = c.name().and_then(|n| n.value()) {
-                items.push(json!({"decl": n.to_string()}));
-            }
-        }
-    }
-    Value::Array(items)
-}
+/// placeholder for the "real" file system: the vfs mode is not available in this bin
+struct NoReal(MemFs);
 
-/// Trees in which `Vfs` has no `set_open_document` (before the D8 repair): `Server::set_file_content` has no
-/// such statement there either.  An inherent method takes precedence over this trait method, so on the
-/// repaired tree the real `Vfs::set_open_document` is called.
-#[allow(dead_code)]
-trait NoOpenDocuments {
-    fn set_open_document(&mut self, _path: FilePath, _text: String) {}
-}
-impl NoOpenDocuments for Vfs {}
-
-enum Fs {
-    Mem(MemFs),
-    Real(Vfs, PathBuf),
-}
-
-impl Fs {
-    fn full(&self, p: &str) -> FilePath {
-        match self {
-            Fs::Mem(_) => MemFs::path(p),
-            Fs::Real(_, base) => FilePath::from(base.join(p).as_path()),
-        }
+impl FileSystem for NoReal {
+    fn assign_or_get_file_id(&mut self, path: FilePath) -> FileId {
+        self.0.assign_or_get_file_id(path)
     }
-    fn rel(&self, p: &FilePath) -> String {
-        match self {
-            Fs::Mem(_) => p.0.to_string_lossy().to_string(),
-            Fs::Real(_, base) => match p.0.strip_prefix(base) {
-                Ok(r) => r.to_string_lossy().to_string(),
-                Err(_) => p.0.to_string_lossy().to_string(),
-            },
-        }
+    fn path_for_file(&self, file_id: &FileId) -> &FilePath {
+        self.0.path_for_file(file_id)
     }
-    fn path_of(&self, id: &FileId) -> Option<String> {
-        let r = std::panic::catch_unwind(AssertUnwindSafe(|| match self {
-            Fs::Mem(m) => m.path_for_file(id).clone(),
-            Fs::Real(v, _) => v.path_for_file(id).clone(),
-        }));
-        r.ok().map(|p| self.rel(&p))
-    }
-    fn name(&self, id: &FileId) -> String {
-        self.path_of(id).unwrap_or_else(|| format!("?{}", id.0))
+    fn read_content(&self, file_path: &FilePath) -> Option<String> {
+        self.0.read_content(file_path)
     }
 }
 
-/// Server::set_file_content, statement by statement (vfs mode) / its MemFs equivalent
-fn touch(fs: &mut Fs, db: &mut RootDatabase, p: &str, text: &str, raw: bool) {
-    let path = fs.full(p);
-    let id = match fs {
-        Fs::Mem(m) => {
-            m.contents.insert(path.clone(), text.to_string());
-            m.assign_or_get_file_id(path)
-        }
-        Fs::Real(v, _) => {
-            v.set_open_document(path.clone(), text.to_string());
-            v.assign_or_get_file_id(path)
-        }
-    };
-    db.set_file_content(id, Arc::from(text));
-    if raw {
-        return;
+impl hostcommon::RealFs for NoReal {
+    fn new_real() -> Self {
+        panic!("vfs mode: use the bin vfsdrive")
     }
-    let sr = match fs {
-        Fs::Mem(m) => file_system::collect_sources(db, m, id),
-        Fs::Real(v, _) => file_system::collect_sources(db, v, id),
-    };
-    db.set_source_root(Arc::new(sr));
-}
-
-fn dump(fs: &Fs, db: &RootDatabase, have_root: bool) -> Value {
-    let mut out = serde_json::Map::new();
-    // id table: ids are allocated consecutively from 0
-    let mut ids = Vec::new();
-    let mut n = 0u32;
-    while let Some(p) = fs.path_of(&FileId(n)) {
-        ids.push((p, n));
-        n += 1;
-        if n > 10_000 {
-            break;
-        }
-    }
-    out.insert("ids".into(), json!(ids.iter().map(|(p, i)| json!([p, i])).collect::<Vec<_>>()));
-    let mut fc = Vec::new();
-    let mut rim = Vec::new();
-    for (p, i) in &ids {
-        let id = FileId(*i);
-        let c = std::panic::catch_unwind(AssertUnwindSafe(|| db.file_content(id).to_string())).ok();
-        fc.push(json!([p, c]));
-        let m = std::panic::catch_unwind(AssertUnwindSafe(|| db.resolved_include_map(id))).ok();
-        let mj = m.map(|m| {
-            let mut v: Vec<(u32, u32, String)> = m
-                .iter()
-                .map(|(k, t)| {
-                    let r = k.0.text_range();
-                    (u32::from(r.start()), u32::from(r.end()), fs.name(t))
-                })
-                .collect();
-            v.sort();
-            v.into_iter().map(|(a, b, t)| json!([a, b, t])).collect::<Vec<_>>()
-        });
-        rim.push(json!([p, mj]));
-    }
-    out.insert("fc".into(), Value::Array(fc));
-    out.insert("rim".into(), Value::Array(rim));
-    if !have_root {
-        out.insert("root".into(), Value::Null);
-        return Value::Object(out);
-    }
-    let sr = db.source_root();
-    out.insert("root".into(), json!(fs.name(&sr.root())));
-    let mut files: Vec<FileId> = sr.iter_files().collect();
-    files.sort();
-    let mut names: Vec<String> = files.iter().map(|f| fs.name(f)).collect();
-    names.sort();
-    out.insert("files".into(), json!(names));
-    // queries
-    let diags = diagnostics::exec(db);
-    let mut keys: Vec<String> = diags.keys().map(|f| fs.name(f)).collect();
-    keys.sort();
-    out.insert("diag_keys".into(), json!(keys));
-    let mut dj = serde_json::Map::new();
-    let mut links = serde_json::Map::new();
-    let mut outline = serde_json::Map::new();
-    for (f, ds) in &diags {
-        let mut v: Vec<(u32, u32, String)> = ds
-            .iter()
-            .map(|d| (u32::from(d.location.range.start()), u32::from(d.location.range.end()), d.message.clone()))
-            .collect();
-        v.sort();
-        dj.insert(fs.name(f), json!(v.into_iter().map(|(a, b, m)| json!([a, b, m])).collect::<Vec<_>>()));
-    }
-    for f in &files {
-        let l = document_link::exec(db, *f).map(|v| {
-            v.iter()
-                .map(|l| json!([u32::from(l.range.start()), u32::from(l.range.end()), fs.name(&l.target)]))
-                .collect::<Vec<_>>()
-        });
-        links.insert(fs.name(f), json!(l));
-        let s = document_symbol::exec(db, *f)
-            .map(|v| v.iter().map(|s| json!([s.name.to_string(), format!("{:?}", s.kind)])).collect::<Vec<_>>());
-        outline.insert(fs.name(f), json!(s));
-    }
-    out.insert("diagnostics".into(), Value::Object(dj));
-    out.insert("links".into(), Value::Object(links));
-    out.insert("outline".into(), Value::Object(outline));
-    Value::Object(out)
-}
-
-/// the same observations through the public Analysis API of a real AnalysisHost
-fn dump_host(fs: &MemFs, host: &AnalysisHost) -> Value {
-    let a = host.analysis();
-    let diags = a.diagnostics();
-    let mut files: Vec<FileId> = diags.keys().copied().collect();
-    files.sort();
-    let mut dj = serde_json::Map::new();
-    let mut links = serde_json::Map::new();
-    let mut outline = serde_json::Map::new();
-    for (f, ds) in &diags {
-        let mut v: Vec<(u32, u32, String)> = ds
-            .iter()
-            .map(|d| (u32::from(d.location.range.start()), u32::from(d.location.range.end()), d.message.clone()))
-            .collect();
-        v.sort();
-        dj.insert(fs.path_str(f), json!(v.into_iter().map(|(a, b, m)| json!([a, b, m])).collect::<Vec<_>>()));
-    }
-    for f in &files {
-        let l = a.document_link(*f).map(|v| {
-            v.iter()
-                .map(|l| json!([u32::from(l.range.start()), u32::from(l.range.end()), fs.path_str(&l.target)]))
-                .collect::<Vec<_>>()
-        });
-        links.insert(fs.path_str(f), json!(l));
-        let s = a
-            .document_symbol(*f)
-            .map(|v| v.iter().map(|s| json!([s.name.to_string(), format!("{:?}", s.kind)])).collect::<Vec<_>>());
-        outline.insert(fs.path_str(f), json!(s));
-    }
-    json!({"diagnostics": dj, "links": links, "outline": outline})
-}
-
-/// the full query set of the public Analysis API of the real AnalysisHost, keyed by path (C07):
-/// per workspace file: folding ranges, inlay hints over the whole file, and at every offset
-/// goto_definition / references / hover (non-null answers only) and the completion labels.
-fn dump_queries(fs: &MemFs, host: &AnalysisHost, texts: &std::collections::HashMap<String, String>) -> Value {
-    use ide::file_system::{FilePosition, FileRange};
-    use syntax::parser::{TextRange, TextSize};
-    let a = host.analysis();
-    let diags = a.diagnostics();
-    let mut files: Vec<FileId> = diags.keys().copied().collect();
-    files.sort_by_key(|f| fs.path_str(f));
-    let mut out = serde_json::Map::new();
-    for f in &files {
-        let name = fs.path_str(f);
-        let text = texts.get(&name).cloned().unwrap_or_default();
-        let len = text.len() as u32;
-        let mut o = serde_json::Map::new();
-        let fold = std::panic::catch_unwind(AssertUnwindSafe(|| {
-            a.folding_range(*f).map(|v| {
-                v.iter().map(|r| json!([u32::from(r.range.start()), u32::from(r.range.end())])).collect::<Vec<_>>()
-            })
-        }));
-        o.insert("folding".into(), fold.map(|v| json!(v)).unwrap_or(json!("panic")));
-        let hints = std::panic::catch_unwind(AssertUnwindSafe(|| {
-            a.inlay_hint(FileRange::new(*f, TextRange::new(TextSize::from(0), TextSize::from(len)))).map(|v| {
-                v.iter()
-                    .map(|h| json!([u32::from(h.position), h.label.clone(), format!("{:?}", h.kind)]))
-                    .collect::<Vec<_>>()
-            })
-        }));
-        o.insert("inlay".into(), hints.map(|v| json!(v)).unwrap_or(json!("panic")));
-        let mut at = Vec::new();
-        for off in 0..=len {
-            if !text.is_char_boundary(off as usize) {
-                continue;
-            }
-            let pos = FilePosition::new(*f, TextSize::from(off));
-            let r = std::panic::catch_unwind(AssertUnwindSafe(|| {
-                let d = a
-                    .goto_definition(pos)
-                    .map(|r| json!([fs.path_str(&r.file), u32::from(r.range.start()), u32::from(r.range.end())]));
-                let rs = a.references(pos).map(|v| {
-                    let mut w: Vec<(String, u32, u32)> = v
-                        .iter()
-                        .map(|r| (fs.path_str(&r.file), u32::from(r.range.start()), u32::from(r.range.end())))
-                        .collect();
-                    w.sort();
-                    w
-                });
-                let h = a.hover(pos).map(|h| json!([h.signature, h.document]));
-                let c = a.completion(pos, None).map(|v| {
-                    let mut w: Vec<String> = v.iter().map(|c| format!("{}:{:?}", c.label, c.kind)).collect();
-                    w.sort();
-                    w
-                });
-                (d, rs, h, c)
-            }));
-            match r {
-                Ok((d, rs, h, c)) => {
-                    if d.is_some() || rs.is_some() || h.is_some() {
-                        at.push(json!([off, d, rs, h]));
-                    }
-                    if off % 7 == 0 {
-                        at.push(json!([off, "completion", c]));
-                    }
-                }
-                Err(_) => at.push(json!([off, "panic"])),
-            }
-        }
-        o.insert("at".into(), Value::Array(at));
-        out.insert(name, Value::Object(o));
-    }
-    Value::Object(out)
-}
-
-fn run_case(case: &Value) -> Value {
-    let mode = case["mode"].as_str().unwrap_or("memfs");
-    let files = case["files"].as_array().expect("files");
-    let mut fs = if mode == "vfs" {
-        let base = PathBuf::from(case["dir"].as_str().expect("dir"));
-        let _ = std::fs::remove_dir_all(&base);
-        std::fs::create_dir_all(&base).expect("mkdir");
-        for f in files {
-            let p = base.join(f[0].as_str().unwrap());
-            if let Some(d) = p.parent() {
-                std::fs::create_dir_all(d).expect("mkdir");
-            }
-            std::fs::write(&p, f[1].as_str().unwrap()).expect("write");
-        }
-        Fs::Real(Vfs::new(), base)
-    } else {
-        let mut m = MemFs::new();
-        for f in files {
-            m.set(f[0].as_str().unwrap(), f[1].as_str().unwrap());
-        }
-        Fs::Mem(m)
-    };
-    // the parallel AnalysisHost (memfs mode only)
-    let mut fs2 = MemFs::new();
-    for f in files {
-        fs2.set(f[0].as_str().unwrap(), f[1].as_str().unwrap());
-    }
-    let mut host = AnalysisHost::new();
-    let mut db = RootDatabase::default();
-    let mut steps = Vec::new();
-    let mut have_root = false;
-    for op in case["history"].as_array().expect("history") {
-        let raw = op[0].as_str() == Some("raw");
-        let p = op[1].as_str().unwrap();
-        let text = op[2].as_str().unwrap();
-        if let Fs::Mem(m) = &fs {
-            m.reads.borrow_mut().clear();
-        }
-        touch(&mut fs, &mut db, p, text, raw);
-        have_root = have_root || !raw;
-        let mut d = dump(&fs, &db, have_root);
-        if let Fs::Mem(m) = &fs {
-            d["reads"] = json!(m.reads.borrow().clone());
-            // same operation on the AnalysisHost
-            fs2.set(p, text);
-            let id = fs2.id(p);
-            host.set_file_content(id, Arc::from(text));
-            if !raw {
-                host.set_root_file(&mut fs2, id);
-            }
-            if have_root {
-                let h = dump_host(&fs2, &host);
-                let same = h["diagnostics"] == d["diagnostics"] && h["links"] == d["links"] && h["outline"] == d["outline"];
-                d["host_agrees"] = json!(same);
-                if !same {
-                    d["host"] = h;
-                }
-                if case["full"].as_bool() == Some(true) {
-                    let texts: std::collections::HashMap<String, String> = fs2
-                        .contents
-                        .iter()
-                        .map(|(k, v)| (k.0.to_string_lossy().to_string(), v.clone()))
-                        .collect();
-                    d["queries"] = dump_queries(&fs2, &host, &texts);
-                }
-            }
-        }
-        steps.push(d);
-    }
-    if let Fs::Real(_, base) = &fs {
-        let _ = std::fs::remove_dir_all(base);
-    }
-    json!({ "steps": steps })
+    fn open_document(&mut self, _path: FilePath, _text: String) {}
 }
 
 fn main() {
-    vharness::quiet_panics();
-    let args: Vec<String> = std::env::args().collect();
-    let cmd = args.get(1).map(|s| s.as_str()).unwrap_or("run");
-    let input: Value = serde_json::from_str(&vharness::read_stdin()).expect("json");
-    let stdout = std::io::stdout();
-    if cmd == "abs" {
-        let res: Vec<Value> = input.as_array().expect("array").iter().map(|t| abs_of(t.as_str().expect("text"))).collect();
-        println!("{}", Value::Array(res));
-        return;
-    }
-    let timeout_ms: u64 = args.get(2).and_then(|s| s.parse().ok()).unwrap_or(5000);
-    for case in input.as_array().expect("array") {
-        // INCLUDE_DIR is read by collect_sources from the process environment: cases run one at a time
-        match case.get("include_dir").and_then(|v| v.as_str()) {
-            Some(d) => {
-                let full = if case["mode"].as_str() == Some("vfs") {
-                    Path::new(case["dir"].as_str().expect("dir")).join(d).to_string_lossy().to_string()
-                } else {
-                    d.to_string()
-                };
-                std::env::set_var("INCLUDE_DIR", full)
-            }
-            None => std::env::remove_var("INCLUDE_DIR"),
-        }
-        let c = case.clone();
-        let (tx, rx) = std::sync::mpsc::channel();
-        // 2 MiB stack like a tokio worker thread
-        std::thread::Builder::new()
-            .stack_size(2 * 1024 * 1024)
-            .spawn(move || {
-                let r = vharness::guarded(move || run_case(&c));
-                let _ = tx.send(r);
-            })
-            .unwrap();
-        let line = match rx.recv_timeout(std::time::Duration::from_millis(timeout_ms)) {
-            Ok(Ok(v)) => v,
-            Ok(Err(m)) => json!({ "panic": m }),
-            Err(std::sync::mpsc::RecvTimeoutError::Timeout) => {
-                let mut o = stdout.lock();
-                writeln!(o, "{}", json!({"timeout": true})).unwrap();
-                o.flush().unwrap();
-                if let (Some("vfs"), Some(d)) = (case["mode"].as_str(), case["dir"].as_str()) {
-                    let _ = std::fs::remove_dir_all(d);
-                }
-                std::process::exit(0);
-            }
-            Err(_) => json!({"panic": "worker thread died"}),
-        };
-        let mut o = stdout.lock();
-        writeln!(o, "{}", line).unwrap();
-        o.flush().unwrap();
-    }
+    hostcommon::main_with::<NoReal>();
 }
